@@ -370,7 +370,7 @@ class InputFileGenerator(object):
             A string containing characters to be used as delimiters.
         """
         self._delimiter = delimiter
-        self._reg = re.compile('[^' + delimiter + '\n]+')
+        self._reg = re.compile('[^' + re.escape(delimiter) + '\n]+')
 
     def mark_anchor(self, anchor, occurrence=1):
         """
